@@ -542,6 +542,42 @@ Proof.
 Qed.
 
 
+(* ---------- the converse: when an assertion IS issued ---------- *)
+(* a stored session presented by cookie is good up to and including its expiry
+   instant (expired = strictly after), and without a store fault the request is answered *)
+Lemma get_session_cookie_ok s parsed c fp id se :
+  parsed && nonempty (cr_user c) = false -> cr_cookie c = Some id ->
+  alookup id (sessions s) = Some se -> clock s <= se_expire se -> fst (pop fp) = NoFault ->
+  get_session verify s parsed c fp = (s, inr (se, None), snd (pop fp)).
+Proof.
+  intros P Ck L X F. unfold get_session. rewrite P, Ck. unfold store_get.
+  destruct (pop fp) as [f fp1]. cbn in F. subst f. rewrite L. cbn [snd].
+  assert (se_expire se <? clock s = false) as -> by lia. reflexivity.
+Qed.
+
+Theorem sso_issues s rq c fp id se md acs :
+  nonempty (cr_user c) = false -> cr_cookie c = Some id ->
+  alookup id (sessions s) = Some se -> clock s <= se_expire se -> fst (pop fp) = NoFault ->
+  alookup (rq_issuer rq) (registry s) = Some md -> acs_select md rq = Some acs ->
+  step' s (Sso rq c) fp = (s, [{| r_status := 200; r_body := BAssertion (mk_assertion se md acs); r_cookie := None |}], snd (pop fp)).
+Proof.
+  intros N Ck L X F R A. cbn [step]. unfold sso. rewrite R, A.
+  rewrite (get_session_cookie_ok s true c fp id se); auto; try (cbn; now rewrite N).
+Qed.
+
+(* IdP-initiated: the form goes to the first HTTP-POST endpoint of the registered metadata *)
+Theorem launch_issues s n c fp sp id se md acs racs :
+  cr_cookie c = Some id -> alookup n (shortcuts s) = Some sp -> fst (pop fp) = NoFault ->
+  alookup id (sessions s) = Some se -> clock s <= se_expire se -> fst (pop (snd (pop fp))) = NoFault ->
+  alookup sp (registry s) = Some md -> md_acs md = acs :: racs ->
+  step' s (Launch n c) fp =
+    (s, [{| r_status := 200; r_body := BAssertion (mk_assertion se md acs); r_cookie := None |}], snd (pop (snd (pop fp)))).
+Proof.
+  intros Ck Ls F1 L X F2 R A. cbn [step]. unfold launch. unfold store_get at 1.
+  destruct (pop fp) as [f fp1] eqn:P1. cbn in F1. subst f. rewrite Ls. cbn [snd] in *.
+  rewrite (get_session_cookie_ok s false c fp1 id se); auto. now rewrite R, A.
+Qed.
+
 (* ---------- what the two bcrypt hypotheses buy ---------- *)
 (* every stored hash is the empty hash or the hash of the password of the last
    successful PUT that carried one *)
@@ -667,6 +703,14 @@ Proof.
   - destruct rs; [reflexivity|discriminate].
 Qed.
 
+Lemma assertion_eqb_refl a : assertion_eqb a a = true.
+Proof. unfold assertion_eqb. now rewrite !String.eqb_refl, profile_eqb_refl. Qed.
+Lemma issue_okb_model rs : issue_okb rs (obs_of_model rs) = true.
+Proof.
+  destruct rs as [|r rs]; [reflexivity|]. unfold issue_okb, obs_of_model. cbn [o_rep].
+  destruct (r_body r); try reflexivity. apply assertion_eqb_refl.
+Qed.
+
 (* the boolean form of the theorems, evaluated on the model's own replies, holds
    for every history and fault plan: what the check computes on the
    implementation's replies is false only if they differ from the model's *)
@@ -675,7 +719,7 @@ Theorem monitor_holds_of_model : forall h s fp,
 Proof.
   induction h as [|o h IH]; intros s fp I; [reflexivity|].
   unfold replies. cbn [trace]. fold step0. destruct (step0 s o fp) as [[s' rs] fp'] eqn:E.
-  cbn [map snd spec_run]. rewrite E. rewrite (spec_step_of_model _ _ _ _ _ _ I E). cbn [andb].
+  cbn [map snd spec_run]. rewrite E. rewrite (spec_step_of_model _ _ _ _ _ _ I E), issue_okb_model. cbn [andb].
   apply IH. unfold step0 in E. eapply step_inv; try eassumption; [apply verify0_hash|apply verify0_empty].
 Qed.
 
@@ -695,13 +739,13 @@ Definition last_reply (h : list op) (fp : faultplan) : list (reply H0) :=
 Example assertion_reachable :
   has_assertion (last_reply (ex_setup ++ [Sso (mkrq "https://sp1/metadata" "") (Password "alice" "pw1")]) []) = true /\
   has_assertion (last_reply (ex_setup ++ [Login (Password "alice" "pw1"); Sso (mkrq "https://sp1/metadata" "https://sp1/acs") (Cookie "S0")]) []) = true /\
-  has_assertion (last_reply (ex_setup ++ [Login (Password "alice" "pw1"); Advance 3600; Launch "x" (Cookie "S0")]) []) = true.
+  has_assertion (last_reply (ex_setup ++ [Login (Password "alice" "pw1"); Advance 3600000000000; Launch "x" (Cookie "S0")]) []) = true.
 Proof. repeat split; vm_compute; reflexivity. Qed.
 
 (* ... and are refused one second after expiry, after the session is deleted, with a wrong
    password, for a user without password, and when the lookup is hit by a store fault *)
 Example assertion_refused :
-  has_assertion (last_reply (ex_setup ++ [Login (Password "alice" "pw1"); Advance 3601; Launch "x" (Cookie "S0")]) []) = false /\
+  has_assertion (last_reply (ex_setup ++ [Login (Password "alice" "pw1"); Advance 3600000000001; Launch "x" (Cookie "S0")]) []) = false /\
   has_assertion (last_reply (ex_setup ++ [Login (Password "alice" "pw1"); DelSession "S0"; Launch "x" (Cookie "S0")]) []) = false /\
   has_assertion (last_reply (ex_setup ++ [Sso (mkrq "https://sp1/metadata" "") (Password "alice" "pw2")]) []) = false /\
   has_assertion (last_reply (PutUser "bob" None ex_prof :: ex_setup ++ [Sso (mkrq "https://sp1/metadata" "") (Password "bob" "")]) []) = false /\
